@@ -4,8 +4,10 @@ import Mathlib.Tactic.Linarith
 /-!
 # The exact binary32 jitter lies in its interval (helper for C06a)
 
-`roundF32 n d` never exceeds `n/d · (1 + 2⁻²⁴)`; hence `jitterExact tp r ≤ tp · (1/2 + 2⁻²⁴ + 2⁻⁴⁹)` for every 16-bit `r`.
-(Single Mathlib tactic modules are imported here, as allowed for `CaresLemmas`; the model itself is core-only.)
+`log2_spec`, `floorLog2Ratio_spec` (the exponent brackets the ratio), `roundF32_le` (rounding to nearest adds at most the
+relative error 2⁻²⁴), `mul_leRat`, `trunc_le`, `fr_le_one`, and the result `jitterExact_ok`:
+`jitterExact tp r · 2⁴⁹ ≤ tp · (2²⁴+1)²` for every `tp` and every 16-bit `r`.
+(Single Mathlib tactic modules — `ring`, `nlinarith` — are imported here, as allowed for `CaresLemmas`; the model is core-only.)
 -/
 namespace Cares.Proto.Timeout
 
@@ -26,5 +28,276 @@ theorem log2Aux_spec (f : Nat) : ∀ n, 1 ≤ n → n ≤ f → 2 ^ (log2Aux f n
 
 theorem log2_spec (n : Nat) (h : 1 ≤ n) : 2 ^ (log2 n) ≤ n ∧ n < 2 ^ (log2 n + 1) :=
   log2Aux_spec n n h (Nat.le_refl n)
+
+/-- `floorLog2Ratio n d = L` brackets the ratio: `2^L ≤ n/d < 2^(L+1)`, written without division -/
+def Brackets (n d : Nat) (L : Int) : Prop :=
+  if L ≥ 0 then d * 2 ^ L.toNat ≤ n ∧ n < d * 2 ^ (L.toNat + 1)
+  else d ≤ n * 2 ^ (-L).toNat ∧ n * 2 ^ (-L).toNat < 2 * d
+
+theorem floorLog2Ratio_spec (n d : Nat) (hn : 1 ≤ n) (hd : 1 ≤ d) : Brackets n d (floorLog2Ratio n d) := by
+  obtain ⟨a1, a2⟩ := log2_spec n hn
+  obtain ⟨b1, b2⟩ := log2_spec d hd
+  unfold floorLog2Ratio Brackets pow2
+  generalize log2 n = k at *
+  generalize log2 d = j at *
+  simp only []
+  by_cases hjk : j ≤ k
+  · -- s = k - j ≥ 0
+    obtain ⟨t, rfl⟩ : ∃ t, k = j + t := ⟨k - j, by omega⟩
+    have hs : ((j + t : Nat) : Int) - (j : Int) = (t : Int) := by omega
+    rw [hs]
+    have ht0 : (t : Int) ≥ 0 := Int.natCast_nonneg t
+    simp only [ht0, ↓reduceIte, Int.toNat_natCast]
+    rw [Nat.pow_add] at a1
+    rw [show j + t + 1 = j + (t + 1) by omega, Nat.pow_add] at a2
+    rw [Nat.pow_succ] at b2
+    by_cases hc : n ≥ d * 2 ^ t
+    · simp only [hc, ↓reduceIte, ht0, Int.toNat_natCast]
+      refine ⟨by simp, ?_⟩
+      calc n < 2 ^ j * 2 ^ (t + 1) := a2
+        _ ≤ d * 2 ^ (t + 1) := Nat.mul_le_mul_right _ b1
+    · simp only [hc, ↓reduceIte]
+      cases t with
+      | zero =>
+        have : ¬ ((0 : Nat) : Int) - 1 ≥ 0 := by omega
+        simp only [this, ↓reduceIte]
+        have e : (-(((0 : Nat) : Int) - 1)).toNat = 1 := by omega
+        rw [e]
+        simp only [Nat.pow_zero, Nat.mul_one] at hc a1
+        omega
+      | succ t =>
+        have h1 : ((t + 1 : Nat) : Int) - 1 ≥ 0 := by omega
+        have e : (((t + 1 : Nat) : Int) - 1).toNat = t := by omega
+        simp only [h1, ↓reduceIte, e]
+        refine ⟨?_, by omega⟩
+        rw [Nat.pow_succ] at a1
+        have : d * 2 ^ t ≤ 2 ^ j * 2 * 2 ^ t := Nat.mul_le_mul_right _ (Nat.le_of_lt b2)
+        have h2 : 2 ^ j * 2 * 2 ^ t = 2 ^ j * (2 ^ t * 2) := by
+          rw [Nat.mul_assoc, Nat.mul_comm 2 (2 ^ t)]
+        omega
+  · -- s < 0
+    obtain ⟨t, rfl⟩ : ∃ t, j = k + (t + 1) := ⟨j - k - 1, by omega⟩
+    have hs : ((k : Nat) : Int) - ((k + (t + 1) : Nat) : Int) = -((t + 1 : Nat) : Int) := by omega
+    rw [hs]
+    have hneg : ¬ (-((t + 1 : Nat) : Int)) ≥ 0 := by omega
+    have e1 : (-(-((t + 1 : Nat) : Int))).toNat = t + 1 := by omega
+    simp only [hneg, ↓reduceIte, e1]
+    rw [Nat.pow_add] at b1
+    rw [show k + (t + 1) + 1 = k + ((t + 1) + 1) by omega, Nat.pow_add] at b2
+    rw [Nat.pow_succ] at a2
+    by_cases hc : n * 2 ^ (t + 1) ≥ d
+    · simp only [hc, ↓reduceIte, hneg, e1]
+      refine ⟨by simp, ?_⟩
+      have : n * 2 ^ (t + 1) < 2 ^ k * 2 * 2 ^ (t + 1) := Nat.mul_lt_mul_of_pos_right a2 (Nat.pow_pos (by decide))
+      have h2 : 2 ^ k * 2 * 2 ^ (t + 1) = 2 * (2 ^ k * 2 ^ (t + 1)) := by
+        rw [Nat.mul_comm (2 ^ k) 2, Nat.mul_assoc]
+      omega
+    · simp only [hc, ↓reduceIte]
+      have hneg2 : ¬ (-((t + 1 : Nat) : Int) - 1) ≥ 0 := by omega
+      have e2 : (-(-((t + 1 : Nat) : Int) - 1)).toNat = (t + 1) + 1 := by omega
+      simp only [hneg2, ↓reduceIte, e2]
+      refine ⟨?_, ?_⟩
+      · have : 2 ^ k * 2 ^ ((t + 1) + 1) ≤ n * 2 ^ ((t + 1) + 1) := Nat.mul_le_mul_right _ a1
+        omega
+      · rw [show (2 : Nat) ^ (t + 1 + 1) = 2 ^ (t + 1) * 2 from Nat.pow_succ ..]
+        have : n * (2 ^ (t + 1) * 2) = 2 * (n * 2 ^ (t + 1)) := by
+          rw [Nat.mul_comm (2 ^ (t + 1)) 2, ← Nat.mul_assoc, Nat.mul_comm n 2, Nat.mul_assoc]
+        omega
+
+
+/-- `a ≤ N/D` for the value `a = m·2^e` (one of the two powers is `2^0`) -/
+def F32.LeRat (a : F32) (N D : Nat) : Prop := a.m * D * 2 ^ a.e.toNat ≤ N * 2 ^ (-a.e).toNat
+
+theorem numden_bracket (n d : Nat) (hn : 1 ≤ n) (hd : 1 ≤ d) :
+    let e : Int := floorLog2Ratio n d - 23
+    2 ^ 23 * (d * 2 ^ e.toNat) ≤ n * 2 ^ (-e).toNat := by
+  intro e
+  have hb := floorLog2Ratio_spec n d hn hd
+  unfold Brackets at hb
+  generalize hL : floorLog2Ratio n d = L at hb e
+  by_cases h0 : L ≥ 0
+  · simp only [h0, ↓reduceIte] at hb
+    obtain ⟨k, rfl⟩ : ∃ k : Nat, L = (k : Int) := ⟨L.toNat, by omega⟩
+    simp only [Int.toNat_natCast] at hb
+    by_cases h23 : 23 ≤ k
+    · obtain ⟨t, rfl⟩ : ∃ t, k = 23 + t := ⟨k - 23, by omega⟩
+      have e1 : e.toNat = t := by simp only [e]; omega
+      have e2 : (-e).toNat = 0 := by simp only [e]; omega
+      rw [e1, e2, Nat.pow_zero, Nat.mul_one]
+      have : 2 ^ 23 * (d * 2 ^ t) = d * 2 ^ (23 + t) := by rw [Nat.pow_add]; ring
+      rw [this]; exact hb.1
+    · obtain ⟨t, ht⟩ : ∃ t, 23 = k + t := ⟨23 - k, by omega⟩
+      have e1 : e.toNat = 0 := by simp only [e]; omega
+      have e2 : (-e).toNat = t := by simp only [e]; omega
+      rw [e1, e2, Nat.pow_zero, Nat.mul_one]
+      have : (2 : Nat) ^ 23 = 2 ^ k * 2 ^ t := by rw [← Nat.pow_add, ← ht]
+      rw [this]
+      calc 2 ^ k * 2 ^ t * d = (d * 2 ^ k) * 2 ^ t := by ring
+        _ ≤ n * 2 ^ t := Nat.mul_le_mul_right _ hb.1
+  · simp only [h0, ↓reduceIte] at hb
+    obtain ⟨k, hk⟩ : ∃ k : Nat, -L = (k : Int) := ⟨(-L).toNat, by omega⟩
+    have hk' : (-L).toNat = k := by omega
+    rw [hk'] at hb
+    have e1 : e.toNat = 0 := by simp only [e]; omega
+    have e2 : (-e).toNat = 23 + k := by simp only [e]; omega
+    rw [e1, e2, Nat.pow_zero, Nat.mul_one, Nat.pow_add]
+    calc 2 ^ 23 * d ≤ 2 ^ 23 * (n * 2 ^ k) := Nat.mul_le_mul_left _ hb.1
+      _ = n * (2 ^ 23 * 2 ^ k) := by ring
+
+/-- rounding never adds more than the relative error 2⁻²⁴ -/
+theorem roundF32_le (n d : Nat) (hn : 1 ≤ n) (hd : 1 ≤ d) :
+    (roundF32 n d).LeRat (n * (2 ^ 24 + 1)) (d * 2 ^ 24) := by
+  have hb := numden_bracket n d hn hd
+  simp only [] at hb
+  unfold roundF32 F32.LeRat pow2
+  simp only []
+  generalize floorLog2Ratio n d - 23 = e at hb ⊢
+  generalize hden : d * 2 ^ e.toNat = den at hb ⊢
+  generalize hnum : n * 2 ^ (-e).toNat = num at hb ⊢
+  have hdm := Nat.div_add_mod num den
+  generalize hq : num / den = q at hdm ⊢
+  generalize hr : num % den = r at hdm ⊢
+  -- the rounded quotient times the denominator is at most the numerator plus half a unit
+  have key : ∀ q', (q' = q ∨ (q' = q + 1 ∧ den ≤ 2 * r)) → q' * (d * 2 ^ 24) * 2 ^ e.toNat ≤ n * (2 ^ 24 + 1) * 2 ^ (-e).toNat := by
+    intro q' hq'
+    have h1 : q' * (d * 2 ^ 24) * 2 ^ e.toNat = q' * den * 2 ^ 24 := by rw [← hden]; ring
+    have h2 : n * (2 ^ 24 + 1) * 2 ^ (-e).toNat = num * (2 ^ 24 + 1) := by rw [← hnum]; ring
+    rw [h1, h2]
+    rcases hq' with rfl | ⟨rfl, hup⟩
+    · nlinarith
+    · nlinarith
+  apply key
+  split
+  · rename_i hc
+    right
+    refine ⟨rfl, ?_⟩
+    rcases hc with hc | hc <;> omega
+  · left; rfl
+
+
+theorem pow2_pos (k : Nat) : 0 < 2 ^ k := Nat.pow_pos (by decide)
+
+/-- the mantissa produced by `roundF32` is at least 2²³ (in particular positive) -/
+theorem roundF32_m_ge (n d : Nat) (hn : 1 ≤ n) (hd : 1 ≤ d) : 2 ^ 23 ≤ (roundF32 n d).m := by
+  have hb := numden_bracket n d hn hd
+  simp only [] at hb
+  unfold roundF32 pow2
+  simp only []
+  generalize floorLog2Ratio n d - 23 = e at hb ⊢
+  have hden : 0 < d * 2 ^ e.toNat := Nat.mul_pos hd (pow2_pos _)
+  generalize d * 2 ^ e.toNat = den at hb hden ⊢
+  generalize n * 2 ^ (-e).toNat = num at hb ⊢
+  have hq : 2 ^ 23 ≤ num / den := (Nat.le_div_iff_mul_le hden).mpr hb
+  split <;> omega
+
+theorem leRat_half (a : F32) (h : a.LeRat 1 1) : (⟨a.m, a.e - 1⟩ : F32).LeRat 1 2 := by
+  unfold F32.LeRat at h ⊢
+  simp only [Nat.mul_one, Nat.one_mul] at h ⊢
+  by_cases he : a.e ≥ 1
+  · have e1 : (a.e - 1).toNat + 1 = a.e.toNat := by omega
+    have e2 : (-(a.e - 1)).toNat = 0 := by omega
+    have e3 : (-a.e).toNat = 0 := by omega
+    rw [e2]; rw [e3] at h
+    rw [← e1, Nat.pow_succ] at h
+    calc a.m * 2 * 2 ^ (a.e - 1).toNat = a.m * (2 ^ (a.e - 1).toNat * 2) := by ring
+      _ ≤ 2 ^ 0 := h
+  · have e1 : (a.e - 1).toNat = 0 := by omega
+    have e2 : (-(a.e - 1)).toNat = (-a.e).toNat + 1 := by omega
+    have e3 : a.e.toNat = 0 := by omega
+    rw [e1, e2, Nat.pow_succ]; rw [e3] at h
+    simp only [Nat.pow_zero, Nat.mul_one] at h ⊢
+    omega
+
+/-- the product of two values, correctly rounded, against the product of their bounds -/
+theorem mul_leRat (a b : F32) (Na Da Nb Db : Nat) (ha : a.LeRat Na Da) (hb : b.LeRat Nb Db)
+    (hma : 1 ≤ a.m) (hmb : 1 ≤ b.m) :
+    (a.mul b).LeRat (Na * Nb * (2 ^ 24 + 1)) (Da * Db * 2 ^ 24) := by
+  unfold F32.mul pow2
+  simp only []
+  generalize hE : a.e + b.e = E
+  have hn : 1 ≤ a.m * b.m * 2 ^ E.toNat := Nat.mul_pos (Nat.mul_pos hma hmb) (pow2_pos _)
+  have hd : 1 ≤ 2 ^ (-E).toNat := pow2_pos _
+  have hr := roundF32_le _ _ hn hd
+  generalize roundF32 (a.m * b.m * 2 ^ E.toNat) (2 ^ (-E).toNat) = R at hr
+  unfold F32.LeRat at ha hb hr ⊢
+  -- exact product against the product of the bounds
+  have hpow : 2 ^ E.toNat * (2 ^ (-a.e).toNat * 2 ^ (-b.e).toNat) =
+      2 ^ (-E).toNat * (2 ^ a.e.toNat * 2 ^ b.e.toNat) := by
+    rw [← Nat.pow_add, ← Nat.pow_add, ← Nat.pow_add, ← Nat.pow_add]
+    congr 1; omega
+  have hprod : a.m * b.m * 2 ^ E.toNat * (Da * Db) ≤ Na * Nb * 2 ^ (-E).toNat := by
+    have h1 := Nat.mul_le_mul ha hb
+    have hpos : 0 < 2 ^ (-a.e).toNat * 2 ^ (-b.e).toNat := Nat.mul_pos (pow2_pos _) (pow2_pos _)
+    apply Nat.le_of_mul_le_mul_right _ hpos
+    calc a.m * b.m * 2 ^ E.toNat * (Da * Db) * (2 ^ (-a.e).toNat * 2 ^ (-b.e).toNat)
+        = a.m * b.m * (Da * Db) * (2 ^ E.toNat * (2 ^ (-a.e).toNat * 2 ^ (-b.e).toNat)) := by ring
+      _ = a.m * b.m * (Da * Db) * (2 ^ (-E).toNat * (2 ^ a.e.toNat * 2 ^ b.e.toNat)) := by rw [hpow]
+      _ = (a.m * Da * 2 ^ a.e.toNat) * (b.m * Db * 2 ^ b.e.toNat) * 2 ^ (-E).toNat := by ring
+      _ ≤ (Na * 2 ^ (-a.e).toNat) * (Nb * 2 ^ (-b.e).toNat) * 2 ^ (-E).toNat := Nat.mul_le_mul_right _ h1
+      _ = Na * Nb * 2 ^ (-E).toNat * (2 ^ (-a.e).toNat * 2 ^ (-b.e).toNat) := by ring
+  apply Nat.le_of_mul_le_mul_right _ hd
+  calc R.m * (Da * Db * 2 ^ 24) * 2 ^ R.e.toNat * 2 ^ (-E).toNat
+      = (R.m * (2 ^ (-E).toNat * 2 ^ 24) * 2 ^ R.e.toNat) * (Da * Db) := by ring
+    _ ≤ (a.m * b.m * 2 ^ E.toNat * (2 ^ 24 + 1) * 2 ^ (-R.e).toNat) * (Da * Db) := Nat.mul_le_mul_right _ hr
+    _ = (a.m * b.m * 2 ^ E.toNat * (Da * Db)) * ((2 ^ 24 + 1) * 2 ^ (-R.e).toNat) := by ring
+    _ ≤ (Na * Nb * 2 ^ (-E).toNat) * ((2 ^ 24 + 1) * 2 ^ (-R.e).toNat) := Nat.mul_le_mul_right _ hprod
+    _ = Na * Nb * (2 ^ 24 + 1) * 2 ^ (-R.e).toNat * 2 ^ (-E).toNat := by ring
+
+theorem trunc_le (a : F32) (N D : Nat) (h : a.LeRat N D) : a.trunc * D ≤ N := by
+  unfold F32.LeRat at h
+  unfold F32.trunc pow2
+  have hy : 0 < 2 ^ (-a.e).toNat := pow2_pos _
+  apply Nat.le_of_mul_le_mul_right _ hy
+  have h1 : a.m * 2 ^ a.e.toNat / 2 ^ (-a.e).toNat * 2 ^ (-a.e).toNat ≤ a.m * 2 ^ a.e.toNat := Nat.div_mul_le_self _ _
+  calc a.m * 2 ^ a.e.toNat / 2 ^ (-a.e).toNat * D * 2 ^ (-a.e).toNat
+      = (a.m * 2 ^ a.e.toNat / 2 ^ (-a.e).toNat * 2 ^ (-a.e).toNat) * D := by ring
+    _ ≤ a.m * 2 ^ a.e.toNat * D := Nat.mul_le_mul_right _ h1
+    _ = a.m * D * 2 ^ a.e.toNat := by ring
+    _ ≤ N * 2 ^ (-a.e).toNat := h
+
+theorem fr_le_one (r : Nat) (h1 : 1 ≤ r) (h2 : r ≤ 65535) : (roundF32 r 65535).LeRat 1 1 := by
+  by_cases h : r = 65535
+  · subst h; unfold F32.LeRat; decide +kernel
+  · have hr := roundF32_le r 65535 h1 (by decide)
+    unfold F32.LeRat at hr ⊢
+    generalize roundF32 r 65535 = R at hr
+    have hP := pow2_pos R.e.toNat
+    have hM := pow2_pos (-R.e).toNat
+    generalize 2 ^ R.e.toNat = P at hr hP
+    generalize 2 ^ (-R.e).toNat = M at hr hM
+    have hr2 : r * (2 ^ 24 + 1) ≤ 65535 * 2 ^ 24 := by omega
+    have : R.m * P * (65535 * 2 ^ 24) ≤ M * (65535 * 2 ^ 24) := by
+      calc R.m * P * (65535 * 2 ^ 24) = R.m * (65535 * 2 ^ 24) * P := by ring
+        _ ≤ r * (2 ^ 24 + 1) * M := hr
+        _ ≤ (65535 * 2 ^ 24) * M := Nat.mul_le_mul_right _ hr2
+        _ = M * (65535 * 2 ^ 24) := by ring
+    have := Nat.le_of_mul_le_mul_right this (by decide)
+    simpa using this
+
+/-- **the exact jitter lies in the interval**: for every 64-bit (indeed every) `timeplus` and every 16-bit draw the
+    amount taken away is at most `timeplus · (1/2 + 2⁻²⁴ + 2⁻⁴⁹)` -/
+theorem jitterExact_ok (tp r : Nat) (hr : r ≤ 65535) : jitterExact tp r * 2 ^ 49 ≤ tp * (2 ^ 24 + 1) ^ 2 := by
+  unfold jitterExact
+  split
+  · simp
+  · rename_i h
+    have hr1 : 1 ≤ r := by omega
+    have ht1 : 1 ≤ tp := by omega
+    simp only []
+    have hU : Cares.Generated.Proto.USHRT_MAX = 65535 := rfl
+    rw [hU]
+    have hfr := fr_le_one r hr1 hr
+    have hfm := roundF32_m_ge r 65535 hr1 (by decide)
+    have hdm := leRat_half _ hfr
+    have hft := roundF32_le tp 1 ht1 (Nat.le_refl 1)
+    have hftm := roundF32_m_ge tp 1 ht1 (Nat.le_refl 1)
+    have hmul := mul_leRat (roundF32 tp 1) ⟨(roundF32 r 65535).m, (roundF32 r 65535).e - 1⟩ _ _ _ _ hft hdm
+      (by omega) (by simp only []; omega)
+    have := trunc_le _ _ _ hmul
+    calc ((roundF32 tp 1).mul ⟨(roundF32 r 65535).m, (roundF32 r 65535).e - 1⟩).trunc * 2 ^ 49
+        = ((roundF32 tp 1).mul ⟨(roundF32 r 65535).m, (roundF32 r 65535).e - 1⟩).trunc * (1 * 2 ^ 24 * 2 * 2 ^ 24) := by
+          norm_num
+      _ ≤ tp * (2 ^ 24 + 1) * 1 * (2 ^ 24 + 1) := this
+      _ = tp * (2 ^ 24 + 1) ^ 2 := by ring
 
 end Cares.Proto.Timeout
